@@ -18,18 +18,60 @@ struct ProcOut {
     stderr: String,
 }
 
+/// Runs the executable to its end, or kills it after `LIMIT_S` seconds (then `code` is None and
+/// stderr says so). Output is collected through files so that a child that never stops printing
+/// cannot block on a full pipe.
+const LIMIT_S: u64 = 20;
+
 fn run_proc(exe: &Path, args: &[&str], cwd: &Path) -> Result<ProcOut, String> {
-    let out = Command::new(exe)
+    use std::sync::atomic::{AtomicU64, Ordering};
+    static N: AtomicU64 = AtomicU64::new(0);
+    let n = N.fetch_add(1, Ordering::SeqCst);
+    let out_path = cwd.join(format!(".out-{}-{}", std::process::id(), n));
+    let err_path = cwd.join(format!(".err-{}-{}", std::process::id(), n));
+    let out_file = std::fs::File::create(&out_path).map_err(|e| e.to_string())?;
+    let err_file = std::fs::File::create(&err_path).map_err(|e| e.to_string())?;
+    let mut child = Command::new(exe)
         .args(args)
         .current_dir(cwd)
         .stdin(Stdio::null())
+        .stdout(Stdio::from(out_file))
+        .stderr(Stdio::from(err_file))
         .env_remove("RUST_BACKTRACE")
-        .output()
+        .spawn()
         .map_err(|e| format!("cannot run {:?}: {}", exe, e))?;
+    let start = std::time::Instant::now();
+    let mut killed = false;
+    let status = loop {
+        match child.try_wait() {
+            Ok(Some(st)) => break st,
+            Ok(None) => {
+                if start.elapsed().as_secs() >= LIMIT_S {
+                    let _ = child.kill();
+                    killed = true;
+                    break child.wait().map_err(|e| e.to_string())?;
+                }
+                std::thread::sleep(std::time::Duration::from_millis(if start.elapsed().as_millis() < 50 { 1 } else { 10 }));
+            }
+            Err(e) => return Err(e.to_string()),
+        }
+    };
+    let read = |p: &Path| -> String {
+        let mut b = std::fs::read(p).unwrap_or_default();
+        b.truncate(1 << 20);
+        String::from_utf8_lossy(&b).to_string()
+    };
+    let stdout = read(&out_path);
+    let mut stderr = read(&err_path);
+    let _ = std::fs::remove_file(&out_path);
+    let _ = std::fs::remove_file(&err_path);
+    if killed {
+        stderr = format!("<killed after {} s without exiting> {}", LIMIT_S, stderr);
+    }
     Ok(ProcOut {
-        code: out.status.code(),
-        stdout: String::from_utf8_lossy(&out.stdout).to_string(),
-        stderr: String::from_utf8_lossy(&out.stderr).to_string(),
+        code: if killed { None } else { status.code() },
+        stdout,
+        stderr,
     })
 }
 
@@ -121,35 +163,30 @@ fn scripts() -> Vec<(&'static str, String)> {
     v.into_iter().map(|(n, s)| (n, s.to_string())).collect()
 }
 
-pub fn bounds(_tier: Tier) -> Value {
-    json!({"scripts": scripts().len(), "invocation_forms": ["file", "-e", "--eval"], "lint_grid": "label x command x output, each in {absent, lower, Upper, mIxed_1, non-ASCII upper} x {parsable, unparsable second line} x {-l, --lint}", "other": ["--version", "--help", "-h"]})
+pub fn bounds(tier: Tier) -> Value {
+    json!({"generated_scripts": if tier == Tier::Thorough { "exit N for N in -600..=600 (2 forms); every script of 1..4 lines over a 14-line pool (3 forms); lint line at 3 positions" } else { "none" }, "scripts": scripts().len(), "invocation_forms": ["file", "-e", "--eval"], "lint_grid": "label x command x output, each in {absent, lower, Upper, mIxed_1, non-ASCII upper} x {parsable, unparsable second line} x {-l, --lint}", "other": ["--version", "--help", "-h"]})
 }
 
 fn sig(kind: &str, name: &str) -> String {
     format!("{}:{}", kind, name)
 }
 
-pub fn worker(w: &mut Worker) {
-    let duck = duck_path();
-    let me = std::env::current_exe().expect("current exe");
-    let dir = w.scratch.join("c20");
-    let _ = std::fs::create_dir_all(&dir);
-    if !duck.exists() {
-        if w.take() {
-            w.begin(|| json!({"kind": "setup"}));
-            w.fail("harness:duck-missing", &format!("{:?} not built", duck), json!({}));
-        }
-        return;
-    }
-    // run scripts
-    for (name, text) in scripts() {
-        for form in ["file", "-e", "--eval"] {
+/// One script through duck and through the library alone; `class` names the signature family.
+#[allow(clippy::too_many_arguments)]
+fn compare_run(w: &mut Worker, duck: &Path, me: &Path, dir: &Path, name: &str, class: &str, text: &str, form: &str) {
+    let duck = duck.to_path_buf();
+    let me = me.to_path_buf();
+    let text = text.to_string();
+    let name_owned = name.to_string();
+    let name = class;
+    {
+        {
             if !w.take() {
-                continue;
+                return;
             }
-            let cj = json!({"kind": "run", "name": name, "form": form, "script": text});
+            let cj = json!({"kind": "run", "name": name_owned, "form": form, "script": text});
             w.begin(|| cj.clone());
-            let file = dir.join(format!("{} script.ds", name));
+            let file = dir.join(format!("{} script.ds", name_owned));
             let fs = file.to_string_lossy().to_string();
             let (d, l) = if form == "file" {
                 std::fs::write(&file, &text).expect("write script");
@@ -162,7 +199,7 @@ pub fn worker(w: &mut Worker) {
                 (Ok(d), Ok(l)) => (d, l),
                 (a, b) => {
                     w.fail("harness:spawn", &format!("{:?} {:?}", a.err(), b.err()), cj);
-                    continue;
+                    return;
                 }
             };
             let lib_ok = l.code == Some(0);
@@ -210,6 +247,61 @@ pub fn worker(w: &mut Worker) {
             }
         }
     }
+}
+
+pub fn worker(w: &mut Worker) {
+    let duck = duck_path();
+    let me = std::env::current_exe().expect("current exe");
+    let dir = w.scratch.join("c20");
+    let _ = std::fs::create_dir_all(&dir);
+    if !duck.exists() {
+        if w.take() {
+            w.begin(|| json!({"kind": "setup"}));
+            w.fail("harness:duck-missing", &format!("{:?} not built", duck), json!({}));
+        }
+        return;
+    }
+    // run scripts
+    for (name, text) in scripts() {
+        for form in ["file", "-e", "--eval"] {
+            compare_run(w, &duck, &me, &dir, name, name, &text, form);
+        }
+    }
+    if w.tier == Tier::Thorough {
+        // every exit code in a window around zero and around the multiples of 256 inside it
+        for n in -600i64..=600 {
+            let text = format!("echo a\nexit {}", n);
+            for form in ["file", "-e"] {
+                compare_run(w, &duck, &me, &dir, &format!("exit {}", n), "generated-exit", &text, form);
+            }
+        }
+        // every script of 1..3 lines over a pool of lines that succeed, print, fail softly, fail
+        // hard, leave, or do not parse
+        const LINES: [&str; 14] = [
+            "echo one",
+            "x = set 1",
+            "trigger_error soft",
+            "exit_on_error true",
+            "array_pop nohandle",
+            "nosuchcommand",
+            "exit",
+            "exit 2",
+            "exit 256",
+            "assert false",
+            "goto :end",
+            "fn f",
+            "echo \"unterminated",
+            "!print compile time",
+        ];
+        let idx: Vec<usize> = (0..LINES.len()).collect();
+        for seq in crate::util::Strings::new(&idx[..], 1, 4) {
+            // the label is the last line, so every jump goes forward and every script ends
+            let text = format!("{}\n:end echo at end", seq.iter().map(|&i| LINES[i]).collect::<Vec<_>>().join("\n"));
+            for form in ["file", "-e", "--eval"] {
+                compare_run(w, &duck, &me, &dir, "generated", "generated", &text, form);
+            }
+        }
+    }
     // a script file that does not exist
     for form in ["file"] {
         if !w.take() {
@@ -242,11 +334,12 @@ pub fn worker(w: &mut Worker) {
             _ => Some(format!("É{}", base)),
         }
     };
+    let npos = if w.tier == Tier::Thorough { 3usize } else { 1 };
     for lk in 0..5u8 {
         for ck in 0..5u8 {
             for ok in 0..5u8 {
                 for parsable in [true, false] {
-                    for flag in ["-l", "--lint"] {
+                    for (flag, posn) in ["-l", "--lint"].iter().flat_map(|f| (0..npos).map(move |p| (*f, p))) {
                         if !w.take() {
                             continue;
                         }
@@ -263,7 +356,11 @@ pub fn worker(w: &mut Worker) {
                         if let Some(c) = &command {
                             line.push_str(&format!("{} RUNS", c));
                         }
-                        let mut text = format!("# lint me\necho RUNS first\n{}\n", line.trim_end());
+                        let mut text = match posn {
+                            0 => format!("# lint me\necho RUNS first\n{}\n", line.trim_end()),
+                            1 => format!("{}\n# lint me\necho RUNS first\n", line.trim_end()),
+                            _ => format!("echo RUNS first\n{}\n\nx = set 1\n", line.trim_end()),
+                        };
                         if !parsable {
                             text.push_str("echo \"unterminated\n");
                         }
@@ -358,7 +455,7 @@ pub fn crash_sig(_case: &Value, kind: &str) -> String {
     kind.to_string()
 }
 
-pub const RULE: &str = "57 scripts (succeeding, printing, failing by crash / unknown command / missing label / assert, exit with no value, 0, 3, -1, 255, 256, 257, 512, -256, 65536, i32::MAX, i32::MIN, abc, ' 3', a value beyond i32, every parse error kind, pre-processor print and missing include, output of child processes interleaved with the script's own, exit_on_error at top level, in a function and inside a script-implemented command) x invocation form {file argument, -e text, --eval text}: the duck executable built from /repo's working tree is run as a subprocess and compared with the library run by the harness in a second subprocess (default Env): exit status 0 exactly when the library run succeeds; stdout equals the library's stdout, followed on failure by 'Error: <display of the library error>'. Lint: label x command x output each in {absent, lower-case, Capitalised, mIxed_1, non-ASCII upper-case} x {parsable, with an unparsable later line} x {-l, --lint}: accepted exactly when the file parses and the three spellings are lower-case, never runs the script, prints 'Error:' on rejection. --version, --help, -h: exit 0 and the documented content";
+pub const RULE: &str = "57 scripts (succeeding, printing, failing by crash / unknown command / missing label / assert, exit with no value, 0, 3, -1, 255, 256, 257, 512, -256, 65536, i32::MAX, i32::MIN, abc, ' 3', a value beyond i32, every parse error kind, pre-processor print and missing include, output of child processes interleaved with the script's own, exit_on_error at top level, in a function and inside a script-implemented command) x invocation form {file argument, -e text, --eval text}: the duck executable built from /repo's working tree is run as a subprocess and compared with the library run by the harness in a second subprocess (default Env): exit status 0 exactly when the library run succeeds; stdout equals the library's stdout, followed on failure by 'Error: <display of the library error>'. Lint: label x command x output each in {absent, lower-case, Capitalised, mIxed_1, non-ASCII upper-case} x {parsable, with an unparsable later line} x {-l, --lint} (thorough: the line at the end, at the start and in the middle of the file): accepted exactly when the file parses and the three spellings are lower-case, never runs the script, prints 'Error:' on rejection. --version, --help, -h: exit 0 and the documented content. Thorough tier in addition: `exit N` for every N in -600..=600, and every script of 1..4 lines over a pool of 14 lines (printing, assigning, soft error, exit_on_error, failing command, unknown command, exit / exit 2 / exit 256, failed assert, forward goto, unterminated function, unparsable line, pre-processor print) closed by a label line. Every subprocess is killed after 20 s (reported as a violation when it is duck that does not exit)";
 pub const ASSUMPTIONS: &[&str] = &["scripts with time- or random-dependent output are not in the pool", "the reference is the same library linked into the harness (differential), so a defect shared by both is invisible here"];
 pub const EXHAUSTIVE: bool = true;
 pub const WALL_CAP_S: (u64, u64) = (58, 600);
